@@ -14,6 +14,10 @@ ENGINES = {
     "e_grammar": ("e_grammar.cpp", "clang++", BASE + SAN, ["-lrapidcheck", "-lpthread"]),
     "e_values": ("e_values.cpp", "clang++", BASE + SAN, ["-lrapidcheck", "-lpthread"]),
     "e_values_mo": ("e_values.cpp", "clang++", BASE + SAN + ["-DVALUES_MOVE_ONLY"], ["-lrapidcheck", "-lpthread"]),
+    "e_lists": ("e_lists.cpp", "clang++", BASE + SAN, ["-lrapidcheck", "-lpthread"]),
+    "e_lists_mo": ("e_lists.cpp", "clang++", BASE + SAN + ["-DVALUES_MOVE_ONLY"], ["-lrapidcheck", "-lpthread"]),
+    # g++ keeps C++17's rule for `return <rvalue-reference parameter>;` (a copy), clang 14 moves; g++ cannot compile ctpg.hpp with -fsanitize=undefined
+    "e_lists_gxx": ("e_lists.cpp", "g++", ["-std=gnu++17", "-g", "-O1", "-DCTPG_VERIF", "-fno-omit-frame-pointer", "-fsanitize=address"], ["-lrapidcheck", "-lpthread"]),
     "e_customlexer": ("e_customlexer.cpp", "clang++", BASE + SAN, ["-lrapidcheck", "-lpthread"]),
     "e_threads": ("e_threads.cpp", "clang++", BASE + SAN, ["-lrapidcheck", "-lpthread"]),
     "e_threads_tsan": ("e_threads.cpp", "clang++", BASE + ["-fsanitize=thread"], ["-lrapidcheck", "-lpthread"]),
@@ -73,3 +77,27 @@ def ensure(engine, repo="/repo"):
     finally:
         fcntl.flock(lock, fcntl.LOCK_UN)
         lock.close()
+
+
+def ensure_emitter(engine, repo="/repo"):
+    """The emit modes (grammars / patterns + expected results for the generated-program jobs) do not exercise ctpg at all: they run generators
+    and reference models only, but live in the engine binaries. When an engine does not build against the working tree (a change to private
+    helpers that the friend hook calls), the emitter is built against the header of the last commit instead, so that the generated programs -
+    which use only the public DSL and ARE compiled against the working tree - can still be produced and judged."""
+    ok, path, log = ensure(engine, repo)
+    if ok:
+        return ok, path, log
+    try:
+        blob = subprocess.run(["git", "-C", repo, "show", "HEAD:include/ctpg/ctpg.hpp"], stdout=subprocess.PIPE, stderr=subprocess.DEVNULL).stdout
+        cur = open(os.path.join(repo, "include", "ctpg", "ctpg.hpp"), "rb").read()
+    except Exception:
+        return False, "", log
+    if not blob or blob == cur:
+        return False, "", log
+    pd = os.path.join(BUILD, "pristine-" + hashlib.sha256(blob).hexdigest()[:16])
+    os.makedirs(os.path.join(pd, "include", "ctpg"), exist_ok=True)
+    hp = os.path.join(pd, "include", "ctpg", "ctpg.hpp")
+    if not os.path.exists(hp):
+        open(hp, "wb").write(blob)
+    ok2, path2, log2 = ensure(engine, pd)
+    return ok2, path2, (log if not ok2 else "")
